@@ -38,7 +38,12 @@ from .c11 import load_export, tlc_env, validate_events, snapped_its, drift_add, 
 S = odl.solvers
 KKT_SOLVERS = ['pdhg', 'admm', 'dr', 'fb', 'pg']
 MONO_QTY = {'cg': 'energy-norm error', 'cgn': 'residual', 'landweber': 'residual',
-            'kaczmarz': 'distance to solution', 'sdbt': 'objective'}
+            'kaczmarz': 'distance to solution', 'sdbt': 'objective',
+            # anchored (smooth/newton.py, smooth/nonlinear_cg.py) but not named by the statement: drift only
+            'bfgs': 'objective', 'nlcg': 'objective', 'newton': 'objective'}
+DRIFT_ONLY = ('bfgs', 'nlcg', 'newton')
+SL.REALNAME.update({'bfgs': 'bfgs_method+BacktrackingLineSearch', 'nlcg': 'conjugate_gradient_nonlinear+BacktrackingLineSearch',
+                    'newton': 'newtons_method+BacktrackingLineSearch'})
 
 
 def sig_of(solver, clause, **kw):
@@ -61,7 +66,7 @@ def quantity(kind, A, b, sol, x):
         return float(np.linalg.norm(A.dot(x) - b))
     if kind == 'kaczmarz':
         return float(np.linalg.norm(x - sol))
-    if kind == 'sdbt':
+    if kind in ('sdbt',) + DRIFT_ONLY:
         return float(np.linalg.norm(A.dot(x) - b) ** 2)
     raise ValueError(kind)
 
@@ -94,9 +99,17 @@ def smooth_run(d):
             rhs = [r.range.element([d['b'][i]]) for i, r in enumerate(rows)]
             S.kaczmarz(rows, x, rhs, d['niter'], omega=d['omegas'], callback=rec,
                        callback_loop=d.get('loop', 'outer'))
-        elif kind == 'sdbt':
+        elif kind in ('sdbt',) + DRIFT_ONLY:
             obj = S.L2NormSquared(op.range).translated(op.range.element(np.array(d['b'], dtype=float))) * op
-            S.steepest_descent(obj, x, line_search=S.BacktrackingLineSearch(obj), maxiter=d['niter'], callback=rec)
+            ls = S.BacktrackingLineSearch(obj)
+            if kind == 'sdbt':
+                S.steepest_descent(obj, x, line_search=ls, maxiter=d['niter'], callback=rec)
+            elif kind == 'bfgs':
+                S.bfgs_method(obj, x, line_search=ls, maxiter=d['niter'], callback=rec)
+            elif kind == 'nlcg':
+                S.conjugate_gradient_nonlinear(obj, x, line_search=ls, maxiter=d['niter'], callback=rec)
+            else:
+                S.newtons_method(obj, x, line_search=ls, maxiter=d['niter'], cg_iter=A.shape[1], callback=rec)
         else:
             raise ValueError(kind)
     except Exception as e:
@@ -135,6 +148,8 @@ def smooth_desc(rnd, kind, cond):
             d['omega'] = w / float(np.linalg.norm(A, 2) ** 2) if w else None
         if kind == 'sdbt':
             d['niter'] = 8
+        if kind in DRIFT_ONLY:
+            d['niter'] = 5
     return d
 
 
@@ -153,9 +168,12 @@ def smooth_case(args):
         # BacktrackingLineSearch asserts a STRICT decrease: at a numerically stationary iterate (the gradient
         # step no longer changes the objective) it raises.  That is outside the scenario (never start the line
         # search at a stationary point); the iterates observed so far are still checked.
-        grad = 2 * A.T.dot(A.dot(its[-1]) - b) if kind == 'sdbt' else None
+        grad = 2 * A.T.dot(A.dot(its[-1]) - b) if kind in ('sdbt',) + DRIFT_ONLY else None
         stationary = kind == 'sdbt' and len(vals) >= 2 and 'AssertionError' in err and \
             float(grad.dot(grad)) <= 1e-12 * max(vals[0], 1e-300)
+        if kind in DRIFT_ONLY:
+            out['drift'] = ['%s random: raised %s' % (SL.REALNAME[kind], err.split(':')[0])]
+            return out
         if not stationary:
             out['viol'].append((sig_of(kind, 'raised', cond=cls), dict(meta, error=err)))
             return out
@@ -165,7 +183,7 @@ def smooth_case(args):
         out['key'] = None
         return out
     ev = mono_event(kind, vals)
-    ev['meta'] = dict(meta, sig=sig_of(kind, 'monotone', cond=cls), values=vals)
+    ev['meta'] = dict(meta, sig=sig_of(kind, 'monotone', cond=cls), values=vals, drift_only=kind in DRIFT_ONLY)
     out['events'].append(ev)
     if kind == 'cg' and cond <= 100:
         q = int(min(round(vals[-1] / vals[0] * 2 ** 30), 2 ** 31 - 1))
@@ -177,7 +195,7 @@ def smooth_case(args):
 # ------------------------------------------------------------------ power method
 def power_desc(rnd):
     m, n = int(rnd.integers(1, 5)), int(rnd.integers(1, 5))
-    kind = rnd.choice(['int', 'normal', 'sym', 'lowrank'])
+    kind = rnd.choice(['int', 'normal', 'sym', 'lowrank', 'scaling'])
     if kind == 'int':
         A = rnd.integers(-3, 4, size=(m, n)).astype(float)
     elif kind == 'sym':
@@ -185,6 +203,8 @@ def power_desc(rnd):
         A = B + B.T
     elif kind == 'lowrank':
         A = np.outer(rnd.normal(size=m), rnd.normal(size=n))
+    elif kind == 'scaling':           # ScalingOperator is its own adjoint: the branch without A^T A
+        A = float(rnd.choice([-3, -2, -0.5, 0.5, 2, 3])) * np.eye(n)
     else:
         A = rnd.normal(size=(m, n))
     if not np.any(A):
@@ -193,11 +213,18 @@ def power_desc(rnd):
     return {'A': A.tolist(), 'x0': x0.tolist(), 'maxiter': int(rnd.choice([2, 4, 10, 100])), 'mkind': str(kind)}
 
 
+def power_op(d):
+    A = np.array(d['A'])
+    if d.get('mkind') == 'scaling':
+        return odl.ScalingOperator(odl.rn(A.shape[0]), float(A[0, 0]))
+    return odl.MatrixOperator(A.copy())
+
+
 def power_case(seed):
     rnd = np.random.default_rng(seed)
     d = power_desc(rnd)
     A = np.array(d['A'])
-    op = odl.MatrixOperator(A.copy())
+    op = power_op(d)
     out = {'viol': [], 'events': [], 'key': ['power', d['mkind'], seed]}
     meta = {'desc': d, 'stage': 'relational', 'sig': sig_of('power', 'power-bound')}
     try:
@@ -580,6 +607,8 @@ def run(ctx):
         nsm = 40 if quick else 800
         stasks = [(kind, conds[i % len(conds)], base + 1000 * ki + i)
                   for ki, kind in enumerate(['cg', 'cgn', 'landweber', 'kaczmarz', 'sdbt']) for i in range(nsm)]
+        stasks += [(kind, conds[i % 3], base + 7000 + 1000 * ki + i)
+                   for ki, kind in enumerate(DRIFT_ONLY) for i in range(nsm // 4)]
         souts = pool.map(smooth_case, stasks, chunksize=8)
         pouts = pool.map(power_case, [base + 900000 + i for i in range(200 if quick else 4000)], chunksize=16)
         ktasks = [(s, base + 500000 + 1000 * si + i, quick) for si, s in enumerate(KKT_SOLVERS)
@@ -635,6 +664,9 @@ def run(ctx):
                           % (SL.REALNAME[inst['solver']], inst['tag']))
                 continue
             sg = dict(meta['sig']) if 'sig' in meta else sig_of(meta['inst']['solver'], cl)
+            if meta.get('drift_only'):
+                drift_add(tlcdrift, '%s random: TLC: %s (not named by the property statement)' % (sg['solver'], cl))
+                continue
             if cl in ('callback-count', 'length') and ev['kind'] in ('exact', 'fixed'):
                 ctx.drift_note('%s: %s' % (sg.get('solver'), cl))
                 continue
@@ -672,7 +704,7 @@ def replay(body):
     if 'desc' in d:      # power
         desc = d['desc']
         A = np.array(desc['A'])
-        op = odl.MatrixOperator(A.copy())
+        op = power_op(desc)
         est = float(odl.power_method_opnorm(op, xstart=op.domain.element(np.array(desc['x0'])), maxiter=desc['maxiter']))
         true = float(np.linalg.norm(A, 2))
         print('estimate', est, 'true norm', true)
